@@ -177,6 +177,21 @@ impl Serialize for DynStruct {
     }
 }
 
+/// A map written through the two-step protocol (`serialize_key`, then `serialize_value`) instead of
+/// `serialize_entry` — the serializer keeps the key in a slot between the two calls.
+pub struct TwoStep(pub Vec<(String, String)>);
+impl Serialize for TwoStep {
+    fn serialize<S: serde::Serializer>(&self, s: S) -> Result<S::Ok, S::Error> {
+        use serde::ser::SerializeMap;
+        let mut m = s.serialize_map(Some(self.0.len()))?;
+        for (k, v) in &self.0 {
+            m.serialize_key(k)?;
+            m.serialize_value(v)?;
+        }
+        m.end()
+    }
+}
+
 pub const KEY_POOL: [&str; 18] = [
     "", "a", "1a", "a b", "a>b", "p:k", "@", "@a", "@a b", "@<", "$text", "$value", "xmlns:a", "<", "a/", "é", "-a", "a\"",
 ];
@@ -235,10 +250,15 @@ fn extra_case(idx: usize, s: &str, cfg: SerCfg) -> Option<(String, Result<String
             m.insert("@a".into(), vec![s.to_string(), s.to_string()]);
             ("map with list values (element list and attribute list)".into(), ser_root(&m, cfg, "m"))
         }
+        i if i < 5 * nk + 20 => {
+            let key = KEY_POOL[i - 4 * nk - 20];
+            let m = TwoStep(vec![("y".to_string(), "0".to_string()), (key.to_string(), s.to_string()), ("z".to_string(), "1".to_string())]);
+            (format!("map with key {:?} written by serialize_key + serialize_value", key), ser_root(&m, cfg, "m"))
+        }
         _ => return None,
     })
 }
-const N_EXTRA: usize = 4 * 18 + 20;
+const N_EXTRA: usize = 5 * 18 + 20;
 
 fn ser_root<T: Serialize>(v: &T, cfg: SerCfg, root: &str) -> Result<String, String> {
     guarded_mut(|| -> Result<String, String> {
@@ -412,7 +432,7 @@ pub fn run(ctx: &Ctx) {
          Writer::write_serializable) into sinks that accept 1, 2, 3, 7 or all bytes per write call, which must produce the bytes of to_string; (2) per payload position of each family type, every \
          string up to length 3/5 over {< > & ' \" ] - NUL newline space a}, INCLUDING strings outside the round-trip domain (leading / \
          trailing blanks, empty list items); (3) out-of-domain cases x the same strings: maps with 18 hostile keys ('' 1a 'a b' a>b \
-         p:k @ @a '@a b' @< $text $value xmlns:a < a/ ...), the same pool as root name, as run-time struct field name and struct name, \
+         p:k @ @a '@a b' @< $text $value xmlns:a < a/ ...), the same pool as root name, as run-time struct field name and struct name, and as keys of a map written through serialize_key + serialize_value, \
          unit variants renamed to markup in attribute / element / $value / $text position, Option without skip, nested sequences, \
          tuples, bytes, unit, top-level primitives and lists. Oracle: the call returns Err, or its output is read by Reader with all \
          checks on without error, nesting depth never negative and 0 at the end, every attribute list iterates without error, every \
